@@ -10,6 +10,10 @@ Two observation modes:
                values such as None / 0 / '' cannot be told apart by identity.  Cache facets are not compared.
   probe=False  (C12, C17) only what does not load is observed after each step (get, back-links, Handle.cached,
                load counts, the snapshot through .get); loading accesses are actions of the specification.
+
+The handles are instances of Handle subclasses of three flavours: plain, sized (`__len__`, empty for now: a playlist
+that has no tracks yet) and switched (`__bool__`, False: "not ready").  A handle is a handle whatever its truth
+value; every other behaviour an adapter replays uses plain handles only, the others mix the flavours (FLAVOURS).
 """
 import keyword
 
@@ -103,10 +107,27 @@ class Env:
     pass
 
 
+# flavour of handle number i (h1, h2, ...) in mix k: 'p' plain, 'l' __len__ -> 0, 'b' __bool__ -> False
+FLAVOURS = ('p', 'l', 'b')
+N_MIXES = 4
+
+
+def flavour_of(mix, i):
+    """Mix 0: every handle plain.  Mixes 1..3: the flavours rotated, so that every handle has every flavour once and
+    truthy and falsy handles meet in one tree."""
+    return 'p' if mix == 0 else FLAVOURS[(i + mix) % 3]
+
+
 class ResourcesAdapter:
-    def __init__(self, desper, probe=False, depth=2, kind_shift=0):
+    def __init__(self, desper, probe=False, depth=2, kind_shift=0, keep_snap=0, mix=None):
         self.desper = desper
         self.probe = probe
+        # KeepSnap of the instance: the snapshot is kept (and read) through that many changes of the tree
+        self.keep_snap = keep_snap
+        # which handles have a false truth value: fixed (--replay tries each mix), or by the number of the
+        # behaviour this adapter replays: 0, 1, 0, 2, 0, 3, ... (deterministic: one adapter per chunk of paths)
+        self.mix = mix
+        self.nreset = 0
         # The value kind matters to the code only if it is wrong, and not at all to the intended model: the dumped
         # instance fixes one assignment and each replay pass rotates it (None -> 0 -> '' -> [] -> weird -> None)
         self.kind_shift = kind_shift
@@ -137,7 +158,16 @@ class ResourcesAdapter:
                 self.products.append(v)
                 return v
 
+        class RHandleSized(RHandle):
+            def __len__(self):
+                return 0
+
+        class RHandleSwitched(RHandle):
+            def __bool__(self):
+                return False
+
         self.RMap, self.RHandle = RMap, RHandle
+        self.flavours = {'p': RHandle, 'l': RHandleSized, 'b': RHandleSwitched}
 
     # ------------------------------------------------------------------------------------------
     def reset(self, init):
@@ -147,8 +177,10 @@ class ResourcesAdapter:
         env.armed = set()
         env.order = sorted(fmap(init['maps']))                     # 'm0' < 'm1' < ...: MapOrder
         env.maps = {m: self.RMap() for m in env.order}
-        env.handles = {h: self.RHandle(h, KINDS[(KINDS.index(k) + self.kind_shift) % len(KINDS)])
-                       for h, k in sorted(fmap(init['kind']).items())}
+        self.nreset += 1
+        env.mix = self.mix if self.mix is not None else (0 if self.nreset % 2 else (self.nreset // 2 - 1) % (N_MIXES - 1) + 1)
+        env.handles = {h: self.flavours[flavour_of(env.mix, i)](h, KINDS[(KINDS.index(k) + self.kind_shift) % len(KINDS)])
+                       for i, (h, k) in enumerate(sorted(fmap(init['kind']).items()))}
         env.snaps = {}                                             # map id -> snapshot node mirroring it
         cls = fmap(init['cls'])
         env.real = {n: REAL[c][0 if n == 'a' else 1] for n, c in cls.items()}
@@ -254,8 +286,8 @@ class ResourcesAdapter:
         env.loaded = []
         env.seen = []
         maps, handles = env.maps, env.handles
-        if name in ('SetItem', 'PushLayer', 'Clear', 'Snapshot'):
-            env.snaps = {}      # a changed map's older snapshot is no longer looked at; a new snapshot replaces the old
+        if name == 'Snapshot' or (name in ('SetItem', 'PushLayer', 'Clear') and pre.get('sage', 0) >= self.keep_snap):
+            env.snaps = {}      # a new snapshot replaces the old; the program lets go of one that saw KeepSnap changes
         # resolve the harness's own lookups first: only the real call runs inside `guarded`
         if name == 'SetItem':
             m, key, val = maps[args[0]], self._key(args[1]), (maps[args[2]] if args[2] in maps else handles[args[2]])
@@ -521,15 +553,17 @@ class ResourcesAdapter:
         sm = []
         root = post['snapRoot']
         if root != 'none':
+            # the nodes of the snapshot by its own tables: the map may have moved on since it was taken
             sslot, sdict = fmap(post['sslot']), fmap(post['sdict'])
-            nodes, todo = [], [root]
+            ents, todo = {}, [root]
             while todo:
                 x = todo.pop()
-                nodes.append(x)
-                todo += list(maps[x].values())
-            for x in sorted(nodes):
-                ent = dict(fmap(sdict[x]))
-                ent.update(fmap(sslot[x]))
+                if x not in ents:
+                    ents[x] = dict(fmap(sdict[x]))
+                    ents[x].update(fmap(sslot[x]))
+                    todo += [e[1] for e in ents[x].values() if e[0] == 'm']
+            for x in sorted(ents):
+                ent = ents[x]
                 sm += [(x, n, 'handle' if ent[n][0] == 'h' else 'snap', ent[n][1]) for n in self.env.names if n in ent]
         exp['smirror'] = tuple(sm)
         exp['_vis'] = vis
